@@ -57,8 +57,20 @@ package valid
 // ---------------------------------------------------------------------------
 // rule text
 
+// C14/C15: the rule-text grammar as spec functions. eqi(s): index of the key/value separator ('=' not preceded by '|'), -1 if none.
+//@ spec eqi(s String) Int = ite(indexof(s, "|") != -1 && indexof(s, "|") < indexof(s, "="), -1, indexof(s, "="))
+//@ spec pBody(s String) String = ite(eqi(s) == -1, s, s[eqi(s)+1:])
+//@ spec pHasMsg(s String) Bool = indexof(pBody(s), "|") != -1 && len(pBody(s)) > indexof(pBody(s), "|") + 1
+//@ spec pKey(s String) String = ite(eqi(s) == -1, ite(pHasMsg(s), pBody(s)[:indexof(pBody(s), "|")], s), s[:eqi(s)])
+//@ spec pVal(s String) String = ite(eqi(s) == -1, "", ite(pHasMsg(s), pBody(s)[:indexof(pBody(s), "|")], pBody(s)))
+//@ spec pRawMsg(s String) String = ite(pHasMsg(s), pBody(s)[indexof(pBody(s), "|")+1:], "")
+
 //@ func ParseValidNameKV
 //@   pure
+//@   ensures [C14 parse.key] key == pKey(validName)
+//@   ensures [C14 parse.val] value == pVal(validName)
+//@   ensures [C15 parse.msg] cusMsg == ite(pHasMsg(validName), ite(matches(IncludeZhRe, pRawMsg(validName)), ExplainZh, ExplainEn) ++ " " ++ pRawMsg(validName), "")
+//@   ensures [C15 parse.nomsg] !pHasMsg(validName) ==> cusMsg == ""
 
 //@ func parseTagTo
 //@   let i = indexof(toVal, "~")
@@ -817,8 +829,21 @@ package valid
 //@ func GetOnlyExplainErr
 //@   modifies nothing
 
+// what the documented builder writes: value wrapping for in/include/re, "=" unless the value brings its own
+//@ spec wrapV(k String, v String) String = ite(k == "in" || k == "include", "(" ++ v ++ ")", ite(k == "re", ite(len(v) > 1 && (v[0] == 39 || v[1] == 39), v, "'" ++ v ++ "'"), v))
+//@ spec genS(k String, v String, hasM Bool, m String) String = k ++ ite(v != "", ite(v[0] == 61, "", "=") ++ wrapV(k, v), "") ++ ite(hasM, "|" ++ m, "")
+
 //@ func GenValidKV
 //@   modifies nothing
+//@   ensures [C14 gen.none] len(values) == 0 ==> result == key
+//@   ensures [C14 gen.text] len(values) >= 1 ==> result == genS(key, values[0], len(values) >= 2, ite(len(values) >= 2, values[1], ""))
+
+// round trip (a lemma over the two contracts): what GenValidKV writes, ParseValidNameKV reads back
+//@ spec genOK(k String, v String, m String) Bool = len(k) <= 4 && len(v) <= 4 && len(m) <= 4 && k != "" && !contains(k, "=") && !contains(k, "|") && !contains(wrapV(k, v), "|") && (v == "" || v[0] != 61)
+//@ lemma [C14 thorough roundtrip.key] forall(k String, v String, m String :: genOK(k, v, m) && m != "" ==> pKey(genS(k, v, true, m)) == k)
+//@ lemma [C14 thorough roundtrip.val] forall(k String, v String, m String :: genOK(k, v, m) && m != "" ==> pVal(genS(k, v, true, m)) == ite(v == "", "", wrapV(k, v)))
+//@ lemma [C14 C15 thorough roundtrip.msg] forall(k String, v String, m String :: genOK(k, v, m) && m != "" ==> pHasMsg(genS(k, v, true, m)) && pRawMsg(genS(k, v, true, m)) == m)
+//@ lemma [C14 thorough roundtrip.nomsg] forall(k String, v String :: genOK(k, v, "") ==> pKey(genS(k, v, false, "")) == k && pVal(genS(k, v, false, "")) == ite(v == "", "", wrapV(k, v)) && !pHasMsg(genS(k, v, false, "")))
 
 //@ func JoinTag2Val
 //@   modifies nothing
